@@ -52,7 +52,7 @@ def r1_number_arms(rep, ctx):
     for i, r in enumerate(rets):
         v = r.value
         key = "Scalar._DoOperation:return%d:%s" % (i, norm(ast.unparse(v))[:50])
-        is_cwq = isinstance(v, ast.Call) and isinstance(v.func, ast.Attribute) and v.func.attr == "CreateWithQuantity" and ast.unparse(v.func.value) in ("self.__class__", "type(self)")
+        is_cwq = isinstance(v, ast.Call) and isinstance(v.func, ast.Attribute) and v.func.attr == "CreateWithQuantity" and _is_own_class(res, v.func.value)
         if not is_cwq:
             rep.bad("C09.R1", key, "Scalar._DoOperation can return `%s`: the result is not a new object built by CreateWithQuantity (a shortcut that returns an operand, or a bare number, skips the operation or strips the unit)" % ast.unparse(v), node=r, fn=fn)
             continue
@@ -69,10 +69,11 @@ def r1_number_arms(rep, ctx):
                 # which guard dominates?
                 par = r._parent
                 guard = ast.unparse(par.test) if isinstance(par, ast.If) else ""
+                gt = show(res.term(par.test), 300) if isinstance(par, ast.If) else ""
                 if left_number:
-                    ok = "p1_is_number" in guard and "Divide" in guard and "not in" in guard
+                    ok = "IsNumber($p1)" in gt and ("Divide" in gt) and ("NotIn" in gt or "not in" in guard or "Not(" in gt or "not " in guard)
                 elif right_number:
-                    ok = guard.replace(" ", "") == "IsNumber(p2)"
+                    ok = gt.replace(" ", "") == "IsNumber($p2)"
             rep.check(ok, "C09.R1", key, "a number arm keeps the object's quantity and applies the callback with the operands in their written order, under the matching guard",
                       "the number arm `%s` does not apply callback(number, own value) / callback(own value, number) under its guard" % norm(ast.unparse(r))[:100], node=r, fn=fn)
         else:
@@ -99,7 +100,7 @@ def r1_number_arms(rep, ctx):
     for r in own_nodes(afn.node):
         if isinstance(r, ast.Return) and r.value is not None:
             v = r.value
-            ok = isinstance(v, ast.Call) and isinstance(v.func, ast.Attribute) and v.func.attr == "CreateWithQuantity" and ast.unparse(v.func.value) in ("self.__class__", "type(self)")
+            ok = isinstance(v, ast.Call) and isinstance(v.func, ast.Attribute) and v.func.attr == "CreateWithQuantity" and _is_own_class(ares, v.func.value)
             rep.check(ok, "C09.R1", "Array._DoOperation:%s" % norm(ast.unparse(r))[:60], "the result is a new object of the operand's class built with a quantity", "Array._DoOperation can return `%s`" % ast.unparse(v), node=r, fn=afn)
     for st in own_statements(afn.node):
         if isinstance(st, ast.Assign) and isinstance(st.targets[0], ast.Name) and st.targets[0].id in ("q1", "q2") and "CreateEmpty" in ast.unparse(st.value):
@@ -108,6 +109,12 @@ def r1_number_arms(rep, ctx):
             guard = ast.unparse(par.test) if isinstance(par, ast.If) else ""
             ok = ("IsNumber(p%s)" % side) in guard and ("isinstance(p%s, numpy.ndarray)" % side) in guard
             rep.check(ok, "C09.R1", "Array._DoOperation:empty-on-own-side:q%s" % side, "the empty quantity stands for the number/ndarray operand on its own side", "q%s gets the empty quantity under `%s`" % (side, guard), node=st, fn=afn)
+
+
+def _is_own_class(res, e):
+    """self.__class__ / type(self), possibly through a local."""
+    t = res.term(e)
+    return all(a in (("attr", ("self",), "__class__"), ("field", "__class__"), ("call", ("name", "type"), (("self",),), ())) for a in alternatives(t))
 
 
 def r2_isnumber(rep, ctx):
